@@ -3,6 +3,7 @@
 //! All byte strings travel as hex.  Panics are caught and reported as {"r":"panic"}.
 use bytes::BytesMut;
 use pgcat::messages::{close_complete, parse_complete, Bind, Close, Describe, Parse};
+use pgcat::pool::PreparedStatementCache;
 use serde_json::{json, Value};
 use std::io::{BufRead, Write};
 use vh::util::*;
@@ -136,6 +137,27 @@ fn run(v: &Value) -> Value {
             let n = name_of(v).unwrap_or_default();
             let c = Close::new(&n);
             json!({"r": "ok", "is_stmt": c.is_prepared_statement(), "enc": enc(move || BytesMut::try_from(c))})
+        }
+        // the pool-level statement cache (pool.rs PreparedStatementCache): steps are {"get": <Parse hex>} / {"promote": <Parse hex>}
+        "poolcache" => {
+            let size = v["size"].as_u64().unwrap_or(0) as usize;
+            let mut cache = PreparedStatementCache::new(size);
+            let mut names = Vec::new();
+            for st in v["steps"].as_array().unwrap() {
+                if let Some(h) = st.get("get").and_then(|x| x.as_str()) {
+                    let b = BytesMut::from(&unhex(h)[..]);
+                    let p = Parse::try_from(&b).expect("parse");
+                    let hash = p.get_hash();
+                    let arc = cache.get_or_insert(&p, hash);
+                    names.push(json!({"name": arc.name.clone(), "same_hash": arc.get_hash() == hash}));
+                } else if let Some(h) = st.get("promote").and_then(|x| x.as_str()) {
+                    let b = BytesMut::from(&unhex(h)[..]);
+                    let p = Parse::try_from(&b).expect("parse");
+                    cache.promote(&p.get_hash());
+                    names.push(Value::Null);
+                }
+            }
+            json!({"r": "ok", "names": names})
         }
         "consts" => json!({"r": "ok", "parse_complete": hex(&parse_complete()), "close_complete": hex(&close_complete())}),
         _ => json!({"r": "unknown-op"}),
